@@ -23,7 +23,7 @@ LEVEL = 'model_checking'
 FAULTS = [None, ('pa', 'start'), ('pb', 'start'), ('pb', 'restore'), ('pa', 'init_async'), ('pa', 'init_regular'),
           ('pb', 'init_from_value'), ('fb', 'calc_output'), ('pb', 'event'), ('mt', 'main_task'), ('pa', 'stop'),
           ('pb', 'stop'), ('pa', 'stop_async'), ('oa', 'start')]
-CAUSES = ['shutdown', 'support-returns', 'support-raises', 'sigterm', 'ctrl-shutdown', 'ctrl-abort', 'abort', 'none',
+CAUSES = ['shutdown', 'support-returns', 'support-raises', 'sigterm', 'ctrl-shutdown', 'ctrl-abort', 'abort', 'cancel', 'none',
           'cblock-shutdown', 'cblock-abort']     # control event sent by a CBlock, i.e. from inside the simulation task
 BOUNDS = {'quick': {'fault sites': len(FAULTS), 'termination causes': len(CAUSES),
                     'instants': 't_term, t_fault in [0, 12] s, stop_async duration vs stop_timeout symbolic',
@@ -39,7 +39,7 @@ STUBS = ["virtual-time loop with symbolic clock", "signal.raise_signal(SIGTERM) 
 ASSUMPTIONS = ["blocks created implicitly (_ctrl, automatic Repeat) count as blocks"]
 EXPECT_LABELS = {'all': ['stopped-exactly-once', 'not-started-not-stopped', 'async-stopped-first', 'stop-async-bounded',
                          'no-leftover-tasks', 'no-live-timers', 'stop-data-last', 'frozen']}
-EXPECT_NOTES = {'all': ['fsm-stopped-before-the-output-block', 'output-block-stopped-first', 'term-before-init-done', 'term-while-running', 'fault-before-termination', 'termination-before-fault',
+EXPECT_NOTES = {'all': ['second-termination-during-clean-up', 'fsm-stopped-before-the-output-block', 'output-block-stopped-first', 'term-before-init-done', 'term-while-running', 'fault-before-termination', 'termination-before-fault',
                         'stop-async-timed-out', 'stop-async-completed', 'start-failed']}
 FLOORS = {'quick': {'paths': 300, 'checks': 3000}, 'thorough': {'paths': 1000, 'checks': 10000}}
 
@@ -210,7 +210,7 @@ def build(env, log, faults, order, ds, st, t_fault, cblock_ctrl=None):
 ORDERS = [['pa', 'pb', 'pa2', 'tm', 'rep', 'oa', 'oas', 'of', 'mt', 'fb'], ['fb', 'mt', 'of', 'oas', 'oa', 'rep', 'tm', 'pa2', 'pb', 'pa']]
 
 
-def scen_life(env, fault_idx, cause, order_idx, sym_stop=False):
+def scen_life(env, fault_idx, cause, order_idx, sym_stop=False, second=None):
     fault = FAULTS[fault_idx]
     faults = {fault: True} if fault else {}
     log = Log()
@@ -261,6 +261,9 @@ def scen_life(env, fault_idx, cause, order_idx, sym_stop=False):
                 res['shutdown_exc'] = err
         elif cause == 'abort':
             circ.abort(RuntimeError('abort() by harness'))
+        elif cause == 'cancel':
+            # the documented way to stop run_forever(): cancel its task
+            res['simtask'].cancel()
         elif cause in ('ctrl-shutdown', 'ctrl-abort'):
             try:
                 circ.findblock('_ctrl').event(cause[5:], source='harness')
@@ -284,13 +287,36 @@ def scen_life(env, fault_idx, cause, order_idx, sym_stop=False):
         else:
             await asyncio.sleep(10000)
 
+    d2 = env.real('second_delay', 0, 2) if second else None
+
+    async def second_termination():
+        # a further termination request while the clean-up is under way (pa.stop_async takes ds seconds):
+        # it must neither interrupt the clean-up nor repeat it
+        await asyncio.sleep(t_term + d2)
+        log.add('-', 'second-termination')
+        try:
+            if second == 'abort':
+                circ.abort(RuntimeError('second abort() by harness'))
+            elif second == 'shutdown':
+                await circ.shutdown()
+            elif second == 'sigterm':
+                signal.raise_signal(signal.SIGTERM)
+            elif second == 'ctrl-shutdown':
+                circ.findblock('_ctrl').event('shutdown', source='harness-2')
+        except Exception as err:
+            res['second_exc'] = err
+
     async def main():
         loop = asyncio.get_running_loop()
         log.clock = loop.time
+        if second == 'ctrl-shutdown':
+            edzed.Event('_ctrl', 'shutdown')
         if cause in ('ctrl-shutdown', 'ctrl-abort'):
             # make sure the control block exists
             edzed.Event('_ctrl', 'shutdown')
         extra = [asyncio.create_task(traffic())]
+        if second:
+            extra.append(asyncio.create_task(second_termination(), name='harness: second'))
         if timed_fault:
             extra.append(asyncio.create_task(fault_task()))
         if use_run:
@@ -300,7 +326,7 @@ def scen_life(env, fault_idx, cause, order_idx, sym_stop=False):
             except BaseException as err:
                 res['run_exc'] = err
         else:
-            simtask = asyncio.create_task(circ.run_forever(), name='harness: simtask')
+            simtask = res['simtask'] = asyncio.create_task(circ.run_forever(), name='harness: simtask')
             term = None
             if cause != 'none' or fault is None:
                 term = asyncio.create_task(terminator())
@@ -311,6 +337,9 @@ def scen_life(env, fault_idx, cause, order_idx, sym_stop=False):
             if term is not None:
                 term.cancel()
         res['t_end'] = loop.time()
+        # everything observed at the very moment run() / the simulation task has finished
+        res['n_end'] = len(log.ev)
+        res['calls_end'] = (list(oa_calls), list(of_calls), list(oas_calls))
         for t in extra:
             t.cancel()
         await asyncio.sleep(0)
@@ -388,10 +417,15 @@ def scen_life(env, fault_idx, cause, order_idx, sym_stop=False):
             env.check('stop-async-bounded', fin[0][2] - b[0][2] <= bound, info=lambda: (b, fin, st))
             env.note('stop-async-completed' if fin[0][1] == 'stop_async-end' else 'stop-async-timed-out')
     else:
-        env.check('stop-async-bounded', log.count('pa', 'stop') == 0 or True)
+        # a stopped block with an asynchronous clean-up had its stop_async() started
+        env.check('stop-async-bounded', log.count('pa', 'stop') == 0, info=lambda: log.ev)
     env.check('no-leftover-tasks', not res['leftover'], info=lambda: res['leftover'])
     env.check('no-live-timers', not res['timers'], info=lambda: res['timers'])
-    env.check('nothing-after-end', res['late_events'] == len(log.ev))
+    env.check('nothing-after-end', res['late_events'] == len(log.ev) == res['n_end']
+              and res['calls_end'] == (oa_calls, of_calls, oas_calls),
+              info=lambda: (log.ev[res['n_end']:], res['calls_end'], (oa_calls, of_calls, oas_calls)))
+    if not use_run:
+        env.check('run-forever-raises', 'sim_exc' in res, info=lambda: res)
     # stop_data was delivered as the last action of every started output block
     if log.count('oa', 'start-returned'):
         env.check('stop-data-last', bool(oa_calls) and oa_calls[-1] == 'OA-STOP', info=lambda: oa_calls)
@@ -412,6 +446,9 @@ def scen_life(env, fault_idx, cause, order_idx, sym_stop=False):
             env.note('fault-before-termination' if log.ev.index(ff[0]) < log.ev.index(term[0]) else 'termination-before-fault')
     elif ff:
         env.note('fault-before-termination')
+    sec = [e for e in log.ev if e[1] == 'second-termination']
+    if sec and b and env.holds(And_(sec[0][2] > b[0][2], sec[0][2] < b[0][2] + ds)):
+        env.note('second-termination-during-clean-up')
 
 
 def scen_cleanup_events(env, cause):
@@ -497,6 +534,12 @@ def shards(tier):
                     continue
                 out.append({'name': f'fault={fault} cause={cause} order={oi}', 'scenario': 'scen_life',
                             'params': {'fault_idx': fi, 'cause': cause, 'order_idx': oi}})
+    for cause, second in (('shutdown', 'abort'), ('sigterm', 'sigterm'), ('abort', 'shutdown'), ('shutdown', 'ctrl-shutdown'),
+                          ('sigterm', 'abort'), ('cancel', 'shutdown')):
+        if tier == 'quick' and (cause, second) not in (('shutdown', 'abort'), ('sigterm', 'sigterm')):
+            continue
+        out.append({'name': f'second termination during clean-up: {cause} then {second}', 'scenario': 'scen_life',
+                    'params': {'fault_idx': 0, 'cause': cause, 'order_idx': 0, 'second': second}, 'cost': 5})
     for cause in (('shutdown',) if tier == 'quick' else ('shutdown', 'sigterm', 'abort')):
         for fi in (0, FAULTS.index(('pa', 'stop_async')), FAULTS.index(('pa', 'stop'))):
             out.append({'name': f'symbolic stop_async/stop_timeout fault={FAULTS[fi]} cause={cause}', 'scenario': 'scen_life',
